@@ -2,7 +2,7 @@
 """C07: values stored in a CIF are read back identical (kind, text, quoted status, numeric value, su, digit precision,
 recursive structure, keys in original spelling), and the stored copy is independent of the caller's object.
 Bounded grammar of value objects x store routes x read routes."""
-import sys, os, itertools, json
+import sys, os, itertools, json, unicodedata
 sys.path.insert(0, os.path.dirname(os.path.abspath(__file__)))
 from lib import *
 from roundtrip import lit
@@ -124,6 +124,14 @@ def work(chunk):
               'itr.open L0 I0', 'itr.next I0', 'pkt.create P1 0', 'pkt.set P1 %s V0' % U('_l2'), 'itr.update I0 P1', 'itr.close I0',
               'val.copychar V0 %s' % U('mutated'), 'val.free V0', 'pkt.free P0', 'pkt.free P1',
               'item.get H0 %s' % U('_s'), 'dump C0', 'walk C0']
+        # a table that has been through the store answers look-ups under every canonically equivalent spelling of its keys
+        lookups = []
+        if spec[0] == 't' and spec[1]:
+            L.append('item.get H0 %s V5' % U('_s'))
+            for k, _ in spec[1]:
+                for sp in sorted(set([k, unicodedata.normalize('NFC', k), unicodedata.normalize('NFD', k)])):
+                    lookups.append((k, sp))
+                    L.append('val.getkey V5 %s -' % U(sp))
         try:
             a = ex.run(L)
         except Crash as c:
@@ -135,8 +143,13 @@ def work(chunk):
         if not isinstance(exp, dict) or errs:
             out.append((fam, spec, 'a store route failed: %r' % (errs[:3] or exp,)))
             continue
-        got_get, dump, walk = a[-3], a[-2], a[-1]
+        nl = len(lookups) + (1 if lookups else 0)
+        got_get, dump, walk = a[-3 - nl], a[-2 - nl], a[-1 - nl]
         problems = []
+        for (k, sp), ans in zip(lookups, a[len(a) - len(lookups):]):
+            want = [e for kk, e in exp.get('i', []) if kk == k]
+            if not isinstance(ans, dict) or ans.get('rc') != 0 or not want or not cmpv(want[-1], ans['v']):
+                problems.append('the table read back does not answer key %r spelled %r: %s' % (k, sp, json.dumps(ans)[:200]))
         if got_get.get('rc') != 0 or not cmpv(exp, got_get['v']):
             problems.append('get_value returned %s' % json.dumps(got_get)[:300])
         try:
@@ -180,7 +193,7 @@ def main():
     return rep.finish({'evaluations': n * 4 * 3, 'distinct_nontrivial': len(cs) - 2,
                        'rule': 'value grammar: strings of length 0,1,2,255-257,511-513,5000,70000 in ASCII / BMP / supplementary / multi-line content plus syntactically special strings, quoted and unquoted; '
                                '%d number spellings plain, quoted and as coerced number-like strings; unknown, n/a; ALL lists/tables with at most %d nodes over 6 leaves; special composites (3000-unit key, 200 elements, depth 6, NFD / case-variant keys). '
-                               'Each value is stored by 4 routes (set_value, add_packet, add_item, iterator update), the caller object is then mutated and freed, and read back by 3 routes (get_value, iteration, cif_walk); '
+                               'Each value is stored by 4 routes (set_value, add_packet, add_item, iterator update), the caller object is then mutated and freed, and read back by 3 routes (get_value, iteration, cif_walk); a table read back is also queried for each key in its given, NFC and NFD spelling; '
                                'evaluations = cases x store routes x read routes' % (len(NUMBERS), 4 if tier == 'quick' else int(os.environ.get('C07_NODES', 6))),
                        'samples': [lit(cs[3][1])[:60], lit(cs[-1][1])[:80], NUMBERS[11]], 'families': fams, 'exhaustive': True},
                       ['expected = deep dump of the caller\'s value object taken before storing (kind, text, quoted, number, su, digits, scale, sign, recursive structure)'])
